@@ -5,7 +5,7 @@
 From Coq Require Import Extraction ExtrOcamlBasic.
 From SB Require Import Base.Prelude Gen.Generated Model.Codec Model.Colors Spec.CodecSpec
   Model.Crc Model.Container Spec.CrcSpec Spec.ContainerSpec Model.Loaders Model.Rth Spec.RthSpec
-  Base.Num Model.Poly Model.Traj Spec.BezierSpec Spec.TrajSpec.
+  Base.Num Model.Poly Model.Traj Spec.BezierSpec Spec.TrajSpec Model.Yaw Spec.YawSpec.
 
 Extraction Language OCaml.
 
@@ -21,4 +21,7 @@ Extraction "sbmodel.ml"
   plan_init num_entries get_point evaluate_at encode_plan eval_spec wf_splan
   (* C01 C07 C08 *)
   traj_init seek cursor0 position_of velocity_of acceleration_of landing_cursor total_duration_msec segments segments_prefix
-  tol_at final_tol traj_pos encode_traj wf_straj total_ms bezier make_bezier horner deriv scale stretch add_constant QOps.
+  tol_at final_tol traj_pos encode_traj wf_straj total_ms bezier make_bezier horner deriv scale stretch add_constant QOps
+  (* C10 *)
+  yaw_init yaw_is_empty yseek ycursor0 ylanding_cursor yaw_of yaw_rate_of yaw_total_duration_msec
+  yaw_tol yaw_tol_at yaw_spec rate_spec encode_yaw wf_syaw.
